@@ -92,6 +92,7 @@ type caseRun struct {
 	raceTaint   []bool // id went through the exact F-delete-fetch-race schedule
 	fetchStatus int    // status of the id when its parked fetch started
 	workerRan   bool   // deletion worker ran while the fetch was parked
+	finishing   int    // object of the parked fetch being finished
 	bad         bool
 }
 
@@ -209,8 +210,46 @@ func (c *caseRun) step(line, kind, result string) {
 	c.r.Check(prop, "deletion.step", append([]string{}, c.ops...), model, impl)
 	c.r.Count("op." + kind)
 	c.r.Count("res." + kind + "." + strings.SplitN(result, " ", 2)[0])
+	c.oracleResult(line, kind, result, obs)
 	c.oracle(kind, obs, del)
 	c.prev = obs
+}
+
+// oracleResult: creating, putting or fetching a tombstoned id fails as already deleted.
+func (c *caseRun) oracleResult(line, kind, result string, obs []objObs) {
+	k := -1
+	switch kind {
+	case "put", "fetch", "fstart", "head":
+		fmt.Sscanf(strings.SplitN(line, " ", 2)[1], "%d", &k)
+	case "ffin":
+		k = c.finishing
+	}
+	if k < 0 {
+		return
+	}
+	p := c.prev[k]
+	tomb := p.entry && p.status > 0
+	if !tomb {
+		return
+	}
+	must := false
+	switch kind {
+	case "put":
+		must = true
+	case "fetch", "fstart":
+		// opening a queued tree that is still stored locally is not a fetch; anything else is
+		must = !p.stored || p.status == int(headstorage.DeletedStatusDeleted)
+	case "head":
+		must = !p.stored && !p.live
+	case "ffin":
+		if result == "ok" {
+			c.violate(c.taintSig(k), "create_put_fetch_fail", fmt.Sprintf("the parked fetch of object %d completed although the id is tombstoned (status %d)", k, p.status))
+		}
+		return
+	}
+	if must && result != "deleted" {
+		c.violate(c.taintSig(k), "create_put_fetch_fail", fmt.Sprintf("%s of tombstoned object %d (status %d, stored=%v) returned %q instead of the already-deleted error", kind, k, p.status, p.stored, result))
+	}
 }
 
 func (c *caseRun) taintSig(k int) string {
@@ -481,9 +520,7 @@ func (c *caseRun) doFetchFinish() {
 	o := w.objs[k]
 	// the exact schedule of F-delete-fetch-race: check passed (no tombstone at start), tombstone
 	// recorded and the worker ran while parked
-	if c.fetchStatus == 0 && c.prev[k].entry && c.prev[k].status == int(headstorage.DeletedStatusDeleted) && c.workerRan && !c.prev[k].stored {
-		c.raceTaint[k] = true
-	}
+	raceSchedule := c.fetchStatus == 0 && c.prev[k].entry && c.prev[k].status == int(headstorage.DeletedStatusDeleted) && c.workerRan && !c.prev[k].stored
 	w.sc.release <- struct{}{}
 	var fr fetchRes
 	select {
@@ -494,8 +531,13 @@ func (c *caseRun) doFetchFinish() {
 	w.fetchIdx = -1
 	if fr.err == nil {
 		c.setLive(o.id, fr.t)
+		if raceSchedule {
+			c.raceTaint[k] = true
+		}
 	}
+	c.finishing = k
 	c.step("ffin", "ffin", errEnum(fr.err))
+	c.finishing = -1
 }
 
 func (c *caseRun) abortFetch() {
@@ -564,6 +606,40 @@ func (c *caseRun) doRun() {
 	c.step("run", "run", "ok")
 }
 
+// doCrash: the process dies inside a deletion-worker pass, right after the first queued id was marked
+// Deleted and before its bound children were handled (the worker's context is cancelled at that point,
+// which makes deleteBoundChildren and the outer loop return), then the peer restarts.
+func (c *caseRun) doCrash() {
+	if len(c.w.delState.GetQueued()) == 0 {
+		return
+	}
+	c.abortFetch()
+	cctx, cancel := context.WithCancel(ctx)
+	defer cancel()
+	touched := ""
+	c.w.tm.onDone = func(id string) { touched = id; cancel() }
+	deletionmanager.VerifRunDeleter(cctx, c.w.delMgr)
+	c.w.tm.onDone = nil
+	k, ok := c.w.byId[touched]
+	if !ok {
+		c.r.Fatal("crash: the worker touched no catalogue object")
+	}
+	c.w.obs.drain()
+	if err := c.w.restart(); err != nil {
+		c.r.Fatal("restart: " + err.Error())
+	}
+	if c.w.updates != 1 {
+		c.violate("", "deletedIds_det", "after restart the state built from the stored snapshot differs from the full history (checkHistoryState had to repair it)")
+	}
+	c.w.updates = 0
+	line := fmt.Sprintf("crash %d %s", k, c.buildsWire(nil))
+	c.w.builds = nil
+	c.markAttached()
+	c.step(line, "restart", "ok")
+	c.r.Count("op.crash")
+	c.checkScratch("crash")
+}
+
 func (c *caseRun) doRestart() {
 	c.abortFetch()
 	if err := c.w.restart(); err != nil {
@@ -618,7 +694,10 @@ func (c *caseRun) doRec(p int, ks []int, snap bool) {
 		c.r.Fatal("change factory: " + err.Error())
 	}
 	tr.Lock()
-	ar, err := tr.AddContent(ctx, objecttree.SignableChangeContent{Data: data, Key: w.keys.SignKey, IsSnapshot: snap})
+	// explicit distinct timestamps: two authors recording the same ids on the same heads within one
+	// second would otherwise produce the very same change (same CID)
+	w.recSeq++
+	ar, err := tr.AddContent(ctx, objecttree.SignableChangeContent{Data: data, Key: w.keys.SignKey, IsSnapshot: snap, Timestamp: 1_000_000 + w.recSeq})
 	tr.Unlock()
 	if err != nil {
 		c.r.Fatal("remote settings add: " + err.Error())
@@ -746,5 +825,11 @@ func (c *caseRun) doDel(k int, snap bool) {
 	c.step(line, "del", res)
 	if err == nil {
 		c.checkScratch("del")
+		// the deleted object and every child bound to it are queued with it
+		for j, o := range c.prev {
+			if (j == k || (c.parents[j] == k && o.entry && o.parent)) && (!o.entry || o.status == 0) {
+				c.violate("", "children_follow", fmt.Sprintf("after the local deletion of %d object %d is not tombstoned", k, j))
+			}
+		}
 	}
 }
